@@ -138,6 +138,10 @@ func (r *raffle) returnTicket(ticket *ticket) {
 }
 
 func (r *raffle) runningJob(jobid string) *runState {
+	verifhook.Acquire(r, "raffle.mu", r)
+	r.runningMu.Lock()
+	defer verifhook.Release(r, "raffle.mu", r)
+	defer r.runningMu.Unlock()
 	verifhook.Access(r, "raffle.running", false)
 	state, ok := r.runningJobs[jobid]
 	if ok {
@@ -146,7 +150,16 @@ func (r *raffle) runningJob(jobid string) *runState {
 	return nil
 }
 
+// getRunningJobs returns a copy: the map itself changes whenever a run starts or ends
 func (r *raffle) getRunningJobs() map[string]*runState {
+	verifhook.Acquire(r, "raffle.mu", r)
+	r.runningMu.Lock()
+	defer verifhook.Release(r, "raffle.mu", r)
+	defer r.runningMu.Unlock()
 	verifhook.Access(r, "raffle.running", false)
-	return r.runningJobs
+	running := make(map[string]*runState, len(r.runningJobs))
+	for k, v := range r.runningJobs {
+		running[k] = v
+	}
+	return running
 }
